@@ -1,6 +1,25 @@
 ---- MODULE CircuitMapMC ----
+(* Exhaustive configuration.  Three reductions, none of which removes a behaviour that matters *)
+(* to an invariant of CircuitMap:                                                              *)
+(*  - VIEW: `ret` and the parts of a thread record that only flow into `ret` (drops, fails)    *)
+(*    are observations; `snap` is read only while the process is down/starting or has just     *)
+(*    started (it is overwritten by the next Crash).                                           *)
+(*  - calls that change nothing but the call counter (an ErrUnknownCircuit answer, an empty    *)
+(*    trim, an all-drops commit) are skipped: the same state with a smaller counter has more   *)
+(*    budget left and subsumes them.                                                           *)
+(*  - a channel becomes fully closed / a resolution message is stored only while no call is    *)
+(*    in flight and a crash can still follow: both commute with every step of a thread (they   *)
+(*    are read by NewCircuitMap and by caller-assumption guards only).                         *)
 EXTENDS CircuitMap
-\* `ret` is an observation of the last step only: it influences neither the behaviour nor an invariant
-View == <<dAdds, dKeys, pending, opened, closed, mode, trimTodo, thr, closedChans, resMsgs,
-          nextIdx, addsCount, respCount, snap, fresh, nops, ncrash, nfail>>
+ThrView(t) == [op |-> thr[t].op, pc |-> thr[t].pc, a |-> thr[t].a, af |-> thr[t].af,
+               rem |-> thr[t].rem, cl |-> thr[t].cl, ks |-> thr[t].ks]
+View == <<dAdds, dKeys, pending, opened, closed, mode, trimTodo, [t \in Threads |-> ThrView(t)],
+          closedChans, resMsgs, nextIdx, addsCount, respCount,
+          IF fresh \/ mode # "up" THEN snap ELSE <<>>, fresh, nops, ncrash, nfail>>
+core == <<dAdds, dKeys, pending, opened, closed, mode, trimTodo, thr, closedChans, resMsgs,
+          nextIdx, addsCount, respCount, ncrash, nfail>>
+MCNext == /\ Next
+          /\ core' # core
+          /\ (closedChans' # closedChans \/ resMsgs' # resMsgs) => (Quiet /\ ncrash < MaxCrash)
+MCSpec == Init /\ [][MCNext]_vars
 ====
